@@ -1,14 +1,27 @@
 //! C15 — Key / relative-path algebra: observations of the real `liwe::model::Key` API and of
-//! the `relative-path` crate on (key, directory, url) triples.
+//! the `relative-path` crate on (key, directory, url) triples; and (inputs of kind "lsp") the links an
+//! editor is handed by a real `iwes::router::server::Server` in ONE session on a library with notes in
+//! several directories: `textDocument/completion` asked from notes in different directories, with and
+//! without didChange in between, and `refactor.extract.section` in a sub-directory.
+//!
+//! lsp input: {"kind":"lsp","shape":..,"ext":..,"notes":[[key,text],..],
+//!             "steps":[["complete",key] | ["change",key,text] | ["extract",key,line],..]}
+//! (the title of a note is the rest of its first line when that starts with `# `)
 use crate::gal::*;
 use crate::rng::Rng;
 use crate::PropModule;
 use liwe::model::{is_ref_url, ref_url, strip_md, Key};
 use relative_path::RelativePath;
 use serde_json::{json, Value};
+use iwes::router::server::Server;
+use iwes::router::{LspClient, ServerConfig};
+use liwe::model::config::{Configuration, MarkdownOptions};
+use lsp_types::*;
+use std::collections::{BTreeMap, BTreeSet};
+use std::panic::{catch_unwind, AssertUnwindSafe};
 
 pub fn module() -> PropModule {
-    PropModule { coq_module: "Check_C15", runner: "Check_C15.run", generate, execute, label }
+    PropModule { coq_module: "Check_C15", runner: "Check_C15.run_all", generate, execute, label }
 }
 
 fn key(s: &str) -> Key {
@@ -90,10 +103,18 @@ pub fn generate(rng: &mut Rng, thorough: bool) -> Vec<Value> {
         let url = rand_path(rng, true);
         out.push(json!({"key": k, "dir": d, "url": url, "kind": if hostile { "random-hostile" } else { "random" }}));
     }
+    // LSP sessions (after the Key API inputs: their random stream stays what it was)
+    let n = if thorough { 2400 } else { 160 };
+    for i in 0..n {
+        out.push(lsp_session(rng, i));
+    }
     out
 }
 
 pub fn label(v: &Value) -> String {
+    if v["kind"].as_str() == Some("lsp") {
+        return lsp_label(v);
+    }
     let k = v["key"].as_str().unwrap();
     let d = v["dir"].as_str().unwrap();
     let rel = if d.is_empty() {
@@ -113,6 +134,13 @@ pub fn label(v: &Value) -> String {
 }
 
 pub fn execute(v: &Value) -> String {
+    if v["kind"].as_str() == Some("lsp") {
+        return gapp("Check_C15.Lsp", &[execute_lsp(v)]);
+    }
+    gapp("Check_C15.KeyApi", &[execute_key_api(v)])
+}
+
+fn execute_key_api(v: &Value) -> String {
     let k = v["key"].as_str().unwrap();
     let d = v["dir"].as_str().unwrap();
     let u = v["url"].as_str().unwrap();
@@ -150,4 +178,291 @@ pub fn execute(v: &Value) -> String {
             gstr(&path_key),
         ],
     )
+}
+
+// ------------------------------------------------------------------------------------------------
+// LSP sessions
+
+const LSP_DIRS: &[&str] = &["", "d", "d/e", "other"];
+const LSP_MORE_DIRS: &[&str] = &["d/e/f", "a b", "é", "other/d", "dir/deep"];
+const LSP_NAMES: &[&str] = &["a", "b", "n", "note", "x.y", "a.md", "a b", "é", "日本", "top", "leaf", "d", "sub"];
+const LSP_TITLES: &[&str] = &["top-level", "sub-document", "leaf", "Alpha", "beta gamma", "Ünï cödé", "T", "x", "日本語 ノート", "a.md", "Note 7"];
+const LSP_SUBS: &[&str] = &["Part", "more of it", "Détails", "S 2"];
+
+fn in_dir(dir: &str, name: &str) -> String {
+    if dir.is_empty() { name.to_string() } else { format!("{}/{}", dir, name) }
+}
+
+fn dir_of(key: &str) -> &str {
+    key.rfind('/').map(|i| &key[..i]).unwrap_or("")
+}
+
+/// the title of a generated note: the rest of the first line when it starts with `# `
+fn title_of(text: &str) -> Option<String> {
+    let first = text.split('\n').next().unwrap_or("");
+    first.strip_prefix("# ").map(|t| t.trim().to_string())
+}
+
+/// line numbers and titles of the `## ` headings of a generated note
+fn sub_headings(text: &str) -> Vec<(usize, String)> {
+    text.split('\n').enumerate().filter_map(|(i, l)| l.strip_prefix("## ").map(|t| (i, t.trim().to_string()))).collect()
+}
+
+fn lsp_text(rng: &mut Rng, key: &str, serial: usize) -> String {
+    let mut t = String::new();
+    if !rng.chance(1, 7) {
+        let title = rng.pick(LSP_TITLES).to_string();
+        if rng.chance(2, 3) { t.push_str(&format!("# {} {}\n\n", title, serial)); } else { t.push_str(&format!("# {}\n\n", title)); }
+    }
+    if rng.chance(1, 4) { t.push_str(&format!("words of {} with [a link](other/a) inside\n", key)); } else { t.push_str(&format!("words of {}\n", key)); }
+    if rng.chance(1, 2) {
+        t.push_str(&format!("\n## {}\n\nbody of the part\n", rng.pick(LSP_SUBS)));
+        if rng.chance(1, 3) { t.push_str(&format!("\n## {} b\n\nsecond part\n", rng.pick(LSP_SUBS))); }
+    }
+    t
+}
+
+fn lsp_session(rng: &mut Rng, i: usize) -> Value {
+    // directories: the root and two to four more
+    let mut dirs: Vec<String> = vec![String::new()];
+    let mut pool: Vec<&str> = LSP_DIRS[1..].to_vec();
+    if rng.chance(1, 2) { pool.push(*rng.pick(LSP_MORE_DIRS)); }
+    let n_dirs = rng.range(2, pool.len().min(4));
+    while dirs.len() < 1 + n_dirs {
+        let d = rng.pick(&pool).to_string();
+        if !dirs.contains(&d) { dirs.push(d); }
+    }
+    let mut notes: Vec<(String, String)> = vec![];
+    let mut serial = 0usize;
+    let add = |notes: &mut Vec<(String, String)>, rng: &mut Rng, key: String, serial: &mut usize| {
+        if !notes.iter().any(|n| n.0 == key) {
+            *serial += 1;
+            let text = lsp_text(rng, &key, *serial);
+            notes.push((key, text));
+        }
+    };
+    for d in &dirs {
+        for _ in 0..rng.range(1, 2) {
+            let key = in_dir(d, *rng.pick(LSP_NAMES));
+            add(&mut notes, rng, key, &mut serial);
+        }
+    }
+    // the same file name in two directories
+    let (k0, _) = rng.pick(&notes).clone();
+    let name = k0.rsplit('/').next().unwrap().to_string();
+    let others: Vec<String> = dirs.iter().filter(|d| d.as_str() != dir_of(&k0)).cloned().collect();
+    let key = in_dir(rng.pick(&others).as_str(), &name);
+    add(&mut notes, rng, key, &mut serial);
+    // sometimes two notes with one title in different directories
+    if rng.chance(1, 3) && notes.len() >= 2 {
+        let a = rng.below(notes.len());
+        let b = rng.below(notes.len());
+        if a != b && dir_of(&notes[a].0) != dir_of(&notes[b].0) {
+            if let Some(t) = title_of(&notes[a].1) {
+                notes[b].1 = format!("# {}\n\nwords of {}\n", t, notes[b].0);
+            }
+        }
+    }
+
+    let mut cur: BTreeMap<String, String> = notes.iter().cloned().collect();
+    let mut steps: Vec<Value> = vec![];
+    let shape = match i % 4 { 0 => "two-dirs-first", 1 => "change-between", _ => "mixed" };
+    let pick_key = |rng: &mut Rng, cur: &BTreeMap<String, String>| -> String {
+        let keys: Vec<&String> = cur.keys().collect();
+        (*rng.pick(&keys)).clone()
+    };
+    // the opening of the session
+    match shape {
+        "two-dirs-first" | "change-between" => {
+            let a = pick_key(rng, &cur);
+            let others: Vec<String> = cur.keys().filter(|k| dir_of(k) != dir_of(&a)).cloned().collect();
+            let b = rng.pick(&others).clone();
+            steps.push(json!(["complete", a]));
+            if shape == "change-between" {
+                let k = pick_key(rng, &cur);
+                serial += 1;
+                let text = if rng.chance(1, 3) { cur[&k].clone() } else { lsp_text(rng, &k, serial) };
+                cur.insert(k.clone(), text.clone());
+                steps.push(json!(["change", k, text]));
+            }
+            steps.push(json!(["complete", b]));
+        }
+        _ => {}
+    }
+    for _ in 0..rng.range(2, 6) {
+        match rng.below(8) {
+            0 | 1 => {
+                // didChange: a note of the library (new title, same text, heading gone) or a new note
+                let k = if rng.chance(1, 6) {
+                    let d = if rng.chance(1, 2) { rng.pick(&dirs).clone() } else { rng.pick(LSP_MORE_DIRS).to_string() };
+                    in_dir(&d, *rng.pick(&["new", "fresh", "a", "leaf"]))
+                } else {
+                    pick_key(rng, &cur)
+                };
+                serial += 1;
+                let text = match cur.get(&k) {
+                    Some(t) if rng.chance(1, 4) => t.clone(),
+                    _ => lsp_text(rng, &k, serial),
+                };
+                cur.insert(k.clone(), text.clone());
+                steps.push(json!(["change", k, text]));
+            }
+            2 => {
+                // (a `## ` heading of a note that starts with its `# ` title: a section inside a section)
+                let with_sub: Vec<(String, usize)> = cur
+                    .iter()
+                    .filter(|(_, t)| title_of(t).is_some())
+                    .flat_map(|(k, t)| sub_headings(t).into_iter().map(move |(l, _)| (k.clone(), l)))
+                    .collect();
+                if !with_sub.is_empty() {
+                    let (k, l) = rng.pick(&with_sub).clone();
+                    steps.push(json!(["extract", k, l]));
+                }
+            }
+            3 if rng.chance(1, 3) => {
+                // a buffer the library does not hold yet
+                let d = if rng.chance(1, 2) { rng.pick(&dirs).clone() } else { rng.pick(LSP_MORE_DIRS).to_string() };
+                steps.push(json!(["complete", in_dir(&d, "unsaved")]));
+            }
+            _ => steps.push(json!(["complete", pick_key(rng, &cur)])),
+        }
+    }
+    let ext = if rng.chance(1, 2) { ".md" } else { "" };
+    json!({"kind": "lsp", "shape": shape, "ext": ext,
+           "notes": notes.iter().map(|n| json!([n.0, n.1])).collect::<Vec<_>>(), "steps": steps})
+}
+
+fn lsp_label(v: &Value) -> String {
+    let steps = v["steps"].as_array().cloned().unwrap_or_default();
+    let mut dirs = BTreeSet::new();
+    let (mut completes, mut changes, mut extracts) = (0, 0, 0);
+    for s in &steps {
+        match s[0].as_str() {
+            Some("complete") => { completes += 1; dirs.insert(dir_of(s[1].as_str().unwrap_or("")).to_string()); }
+            Some("change") => changes += 1,
+            Some("extract") => extracts += 1,
+            _ => {}
+        }
+    }
+    let _ = completes;
+    format!("lsp:{}:ext={}:asking-dirs={}{}{}", v["shape"].as_str().unwrap_or("?"), v["ext"].as_str().unwrap_or(""),
+            if dirs.len() >= 3 { "3+".to_string() } else { dirs.len().to_string() },
+            if changes > 0 { ":didChange" } else { "" }, if extracts > 0 { ":extract" } else { "" })
+}
+
+const LSP_BASE: &str = "file:///basepath/";
+
+fn lsp_uri(key: &str) -> Url {
+    Url::from_file_path(format!("/basepath/{}.md", key)).unwrap()
+}
+
+/// key of a uri under the base path: the decoded path without the base and without one `.md`
+fn lsp_key_of(uri: &Url) -> String {
+    let s = match uri.to_file_path() {
+        Ok(p) => format!("file://{}", p.to_string_lossy()),
+        Err(_) => uri.to_string(),
+    };
+    let s = s.strip_prefix(LSP_BASE).unwrap_or(&s).to_string();
+    s.strip_suffix(".md").unwrap_or(&s).to_string()
+}
+
+fn gtitle(text: &str) -> String {
+    gopt(title_of(text).map(|t| gstr(&t)))
+}
+
+fn execute_lsp(v: &Value) -> String {
+    let ext = v["ext"].as_str().unwrap_or("");
+    let notes: Vec<(String, String)> = v["notes"].as_array().unwrap().iter()
+        .map(|n| (n[0].as_str().unwrap().to_string(), n[1].as_str().unwrap().to_string())).collect();
+    let lib = glist(&notes.iter().map(|(k, t)| gpair(&gstr(k), &gtitle(t))).collect::<Vec<_>>());
+    let server = catch_unwind(AssertUnwindSafe(|| {
+        Server::new(ServerConfig {
+            base_path: "/basepath".to_string(),
+            state: notes.iter().cloned().collect(),
+            sequential_ids: Some(true),
+            lsp_client: LspClient::Unknown,
+            configuration: Configuration { markdown: MarkdownOptions { refs_extension: ext.to_string() }, ..Default::default() },
+        })
+    }));
+    let started = server.is_ok();
+    let mut steps = vec![];
+    if let Ok(mut server) = server {
+        let mut cur: BTreeMap<String, String> = notes.iter().cloned().collect();
+        for s in v["steps"].as_array().cloned().unwrap_or_default() {
+            let key = s[1].as_str().unwrap_or("").to_string();
+            match s[0].as_str() {
+                Some("complete") => {
+                    let params = CompletionParams {
+                        text_document_position: TextDocumentPositionParams {
+                            text_document: TextDocumentIdentifier { uri: lsp_uri(&key) },
+                            position: Position::new(0, 0),
+                        },
+                        work_done_progress_params: Default::default(),
+                        partial_result_params: Default::default(),
+                        context: None,
+                    };
+                    let items = catch_unwind(AssertUnwindSafe(|| match server.handle_completion(params) {
+                        CompletionResponse::List(l) => l.items,
+                        CompletionResponse::Array(a) => a,
+                    }))
+                    .ok()
+                    .map(|items| glist(&items.iter().map(|it| gpair(&gstr(&it.label), &gstr(it.insert_text.as_deref().unwrap_or("")))).collect::<Vec<_>>()));
+                    steps.push(gapp("Check_C15.SComplete", &[gstr(&key), gopt(items)]));
+                }
+                Some("change") => {
+                    let text = s[2].as_str().unwrap_or("").to_string();
+                    let ok = catch_unwind(AssertUnwindSafe(|| {
+                        server.handle_did_change_text_document(DidChangeTextDocumentParams {
+                            text_document: VersionedTextDocumentIdentifier { uri: lsp_uri(&key), version: 2 },
+                            content_changes: vec![TextDocumentContentChangeEvent { range: None, range_length: None, text: text.clone() }],
+                        })
+                    }))
+                    .is_ok();
+                    steps.push(gapp("Check_C15.SChange", &[gstr(&key), gtitle(&text), gbool(ok)]));
+                    cur.insert(key, text);
+                }
+                Some("extract") => {
+                    let line = s[2].as_u64().unwrap_or(0) as usize;
+                    let title = cur.get(&key).and_then(|t| sub_headings(t).into_iter().find(|(l, _)| *l == line)).map(|x| x.1).unwrap_or_default();
+                    // sequential ids: the number of keys + 1
+                    let id = (cur.len() + 1).to_string();
+                    let params = CodeActionParams {
+                        text_document: TextDocumentIdentifier { uri: lsp_uri(&key) },
+                        range: Range::new(Position::new(line as u32, 0), Position::new(line as u32, 0)),
+                        context: CodeActionContext { diagnostics: vec![], only: Some(vec![CodeActionKind::new("refactor.extract.section")]), trigger_kind: None },
+                        work_done_progress_params: Default::default(),
+                        partial_result_params: Default::default(),
+                    };
+                    let obs = catch_unwind(AssertUnwindSafe(|| {
+                        let offered = server.handle_code_action(&params).into_iter().find_map(|a| match a {
+                            CodeActionOrCommand::CodeAction(ca) => Some(ca),
+                            _ => None,
+                        })?;
+                        let resolved = server.handle_code_action_resolve(&offered);
+                        let mut created: Option<String> = None;
+                        let mut links: Vec<String> = vec![];
+                        if let Some(WorkspaceEdit { document_changes: Some(DocumentChanges::Operations(ops)), .. }) = resolved.edit {
+                            for op in ops {
+                                match op {
+                                    DocumentChangeOperation::Op(ResourceOp::Create(c)) => created = Some(lsp_key_of(&c.uri)),
+                                    DocumentChangeOperation::Edit(e) if lsp_key_of(&e.text_document.uri) == key => {
+                                        let text = e.edits.iter().map(|x| match x { OneOf::Left(t) => t.new_text.clone(), OneOf::Right(t) => t.text_edit.new_text.clone() }).collect::<Vec<_>>().join("");
+                                        // the link lines the note is left with
+                                        links.extend(text.split('\n').filter(|l| l.starts_with('[') && l.ends_with(')')).map(|l| l.to_string()));
+                                    }
+                                    _ => {}
+                                }
+                            }
+                        }
+                        Some((created.unwrap_or_default(), links))
+                    }))
+                    .ok()
+                    .map(|o| gopt(o.map(|(c, l)| gpair(&gstr(&c), &glist(&l.iter().map(|x| gstr(x)).collect::<Vec<_>>())))));
+                    steps.push(gapp("Check_C15.SExtract", &[gstr(&key), gstr(&title), gstr(&id), gopt(obs)]));
+                }
+                _ => {}
+            }
+        }
+    }
+    gapp("Check_C15.Session", &[gstr(ext), lib, gbool(started), glist(&steps)])
 }
